@@ -28,8 +28,8 @@ def main():
             skip_suite = True; i += 1
         else:
             names.append(args[i]); i += 1
-    wt = "/tmp/seed/" + pid
-    out = "/tmp/seed/out/" + pid
+    wt = os.environ.get("SEED_WT", "/tmp/seed/" + pid)
+    out = os.environ.get("SEED_OUT", "/tmp/seed/out/" + pid)
     meta = json.load(open(os.path.join(out, "meta.json")))
     for m in meta["mutations"]:
         name = m["name"]
